@@ -13,5 +13,6 @@ verus! {
 //@ include_stubs contracts/transactional_only.rs
 //@ include_stubs contracts/app.rs
 //@ include contracts/builder.rs
+//@ include contracts/builder_defaults.rs
 } // verus!
 fn main() {}
